@@ -20,6 +20,7 @@ import (
 	"fmt"
 	commonv2 "metacontroller/pkg/controller/common/api/v2"
 	v1 "metacontroller/pkg/controller/decorator/api/v1"
+	"slices"
 
 	"k8s.io/apimachinery/pkg/apis/meta/v1/unstructured"
 )
@@ -67,6 +68,10 @@ func (c *decoratorController) callHook(
 			child.SetNamespace(parent.GetNamespace())
 		}
 	}
+
+	// A JSON null in the attachments list decodes to a nil entry; drop it (the
+	// namespace defaulting above already tolerates it) instead of crashing later.
+	response.Attachments = slices.DeleteFunc(response.Attachments, func(child *unstructured.Unstructured) bool { return child == nil })
 
 	return &response, nil
 }
